@@ -268,6 +268,56 @@ fn g(f: impl FnOnce() -> Out) -> Out {
     }
 }
 
+/// `parse_with` over decoded characters whose lengths are *not* their UTF-8 lengths: every
+/// character is announced with its UTF-16 length in bytes (2 or 4), as a caller reading a
+/// UTF-16 document would. All positions the parser reports are then sums of those lengths; they
+/// are translated back to UTF-8 offsets here, so that the ordinary expectations apply. A
+/// position that is not a character boundary in that metric is reported as broken.
+pub fn utf16_entry(text: &str, o: Options) -> Out {
+    let mut back: std::collections::HashMap<usize, usize> = std::collections::HashMap::new();
+    let (mut p16, mut p8) = (0usize, 0usize);
+    back.insert(0, 0);
+    for c in text.chars() {
+        p16 += 2 * c.len_utf16();
+        p8 += c.len_utf8();
+        back.insert(p16, p8);
+    }
+    let tr = |p: usize| back.get(&p).copied();
+    let r = explore::guard(|| norm(Value::parse_with(text.chars().map(|c| Ok::<DecodedChar, Infallible>(DecodedChar::new(c, 2 * c.len_utf16()))), o)));
+    let out = match r {
+        Ok(o) => o,
+        Err(p) => return Out::Broken(format!("panic: {p}")),
+    };
+    let bad = |p: usize| Out::Broken(format!("position {p} (in announced lengths) is not a character boundary of the input"));
+    match out {
+        Out::Ok(v, map) => {
+            let mut m2 = Vec::with_capacity(map.len());
+            for (a, b, vol) in map {
+                match (tr(a), tr(b)) {
+                    (Some(a), Some(b)) => m2.push((a, b, vol)),
+                    _ => return bad(if tr(a).is_none() { a } else { b }),
+                }
+            }
+            Out::Ok(v, m2)
+        }
+        Out::Err(e) => {
+            let t2 = |a: usize, b: usize| match (tr(a), tr(b)) {
+                (Some(a), Some(b)) => Ok((a, b)),
+                _ => Err(if tr(a).is_none() { a } else { b }),
+            };
+            match e {
+                EK::Stream(p) => tr(p).map(|p| Out::Err(EK::Stream(p))).unwrap_or_else(|| bad(p)),
+                EK::Unexpected(p, c) => tr(p).map(|p| Out::Err(EK::Unexpected(p, c))).unwrap_or_else(|| bad(p)),
+                EK::InvalidUtf8(p) => tr(p).map(|p| Out::Err(EK::InvalidUtf8(p))).unwrap_or_else(|| bad(p)),
+                EK::InvalidUnicodeCodePoint(a, b, c) => t2(a, b).map(|(a, b)| Out::Err(EK::InvalidUnicodeCodePoint(a, b, c))).unwrap_or_else(bad),
+                EK::MissingLowSurrogate(a, b, h) => t2(a, b).map(|(a, b)| Out::Err(EK::MissingLowSurrogate(a, b, h))).unwrap_or_else(bad),
+                EK::InvalidLowSurrogate(a, b, h, c) => t2(a, b).map(|(a, b)| Out::Err(EK::InvalidLowSurrogate(a, b, h, c))).unwrap_or_else(bad),
+            }
+        }
+        b => b,
+    }
+}
+
 /// Every entry point that takes text, with default (strict) options or explicit strict options.
 pub fn all_strict_text_entry_points(text: &str) -> Vec<(&'static str, Out)> {
     let dc = |c: char| DecodedChar::from_utf8(c);
@@ -284,6 +334,7 @@ pub fn all_strict_text_entry_points(text: &str) -> Vec<(&'static str, Out)> {
         ("parse_infallible_with", g(|| norm(Value::parse_infallible_with(text.chars().map(dc), STRICT)))),
         ("parse", g(|| norm(Value::parse(text.chars().map(|c| Ok::<DecodedChar, Infallible>(dc(c))))))),
         ("parse_with", g(|| norm(Value::parse_with(text.chars().map(|c| Ok::<DecodedChar, Infallible>(dc(c))), STRICT)))),
+        ("parse_with(characters announced with their UTF-16 lengths)", utf16_entry(text, STRICT)),
         ("FromStr", g(|| match text.parse::<Value>() {
             Ok(v) => Out::Ok(v, Vec::new()),
             Err(e) => match ek(&e) {
@@ -303,11 +354,29 @@ pub fn all_text_entry_points_with(text: &str, o: Options) -> Vec<(&'static str, 
         ("parse_utf8_infallible_with", g(|| norm(Value::parse_utf8_infallible_with(text.chars(), o)))),
         ("parse_infallible_with", g(|| norm(Value::parse_infallible_with(text.chars().map(dc), o)))),
         ("parse_with", g(|| norm(Value::parse_with(text.chars().map(|c| Ok::<DecodedChar, Infallible>(dc(c))), o)))),
+        ("parse_with(characters announced with their UTF-16 lengths)", utf16_entry(text, o)),
     ]
 }
 
 pub fn slice_entry(bytes: &[u8], o: Options) -> Out {
     g(|| norm(Value::parse_slice_with(bytes, o)))
+}
+
+/// The byte-slice entry points must not depend on where the input sits in memory: the same
+/// bytes placed 1, 4 and 7 bytes past a 16-byte boundary (and, for comparison, on it) must give
+/// the outcome `want`. (Word-at-a-time scanning has an unaligned head and tail.)
+pub fn slice_alignment_sweep(bytes: &[u8], o: Options, want: &Out) -> Result<(), String> {
+    let mut buf = vec![b' '; bytes.len() + 48];
+    let base = buf.as_ptr().align_offset(16);
+    for k in [0usize, 1, 4, 7] {
+        let at = base + k;
+        buf[at..at + bytes.len()].copy_from_slice(bytes);
+        let got = g(|| norm(Value::parse_slice_with(&buf[at..at + bytes.len()], o)));
+        if got != *want {
+            return Err(format!("parse_slice_with on the same bytes placed {k} byte(s) past a 16-byte boundary gives {}, expected {}", got.brief(), want.brief()));
+        }
+    }
+    Ok(())
 }
 
 pub fn slice_entry_default(bytes: &[u8]) -> Out {
